@@ -1,0 +1,156 @@
+//! Verification hooks (compiled only with `--cfg quiver_verif`). Read-only views of executor
+//! internals, a thread-local instruction-quantum override, and an optional per-instruction trace.
+//! Nothing here changes behaviour unless a harness explicitly sets the quantum.
+use super::Executor;
+use crate::bytecode::Instruction;
+use crate::effects::Effect;
+use crate::process::{Process, ProcessId};
+use std::cell::{Cell, RefCell};
+
+thread_local! {
+    static QUANTUM: Cell<usize> = const { Cell::new(0) };
+    static TRACE: RefCell<Option<Vec<TraceEntry>>> = const { RefCell::new(None) };
+}
+
+/// One executed instruction, observed just before it runs.
+#[derive(Debug, Clone)]
+pub struct TraceEntry {
+    pub pid: ProcessId,
+    pub function_index: usize,
+    pub pc: usize,
+    pub instruction: Instruction,
+    pub stack_len: usize,
+    pub locals_len: usize,
+    pub locals_base: usize,
+    pub frames_len: usize,
+}
+
+/// Override the per-step instruction quantum on this thread (0 = no override).
+pub fn set_quantum(q: usize) {
+    QUANTUM.with(|c| c.set(q));
+}
+
+pub(super) fn quantum_override(default: usize) -> usize {
+    let q = QUANTUM.with(|c| c.get());
+    if q == 0 { default } else { q }
+}
+
+/// Start (Some(empty)) or stop (None) recording a per-instruction trace on this thread.
+pub fn set_tracing(on: bool) {
+    TRACE.with(|t| *t.borrow_mut() = if on { Some(Vec::new()) } else { None });
+}
+
+/// Take the recorded trace, leaving an empty one if tracing is on.
+pub fn take_trace() -> Vec<TraceEntry> {
+    TRACE.with(|t| match t.borrow_mut().as_mut() {
+        Some(v) => std::mem::take(v),
+        None => Vec::new(),
+    })
+}
+
+pub(super) fn trace(pid: ProcessId, proc: &Process, instruction: Instruction) {
+    TRACE.with(|t| {
+        if let Some(v) = t.borrow_mut().as_mut()
+            && let Some(frame) = proc.frames.last()
+        {
+            v.push(TraceEntry {
+                pid,
+                function_index: frame.function_index,
+                pc: frame.counter,
+                instruction,
+                stack_len: proc.stack.len(),
+                locals_len: proc.locals.len(),
+                locals_base: frame.locals_base,
+                frames_len: proc.frames.len(),
+            });
+        }
+    });
+}
+
+/// Read-only snapshot of the scheduling and heap bookkeeping.
+#[derive(Debug, Clone)]
+pub struct ExecutorDump {
+    pub queue: Vec<ProcessId>,
+    pub spawning: Vec<ProcessId>,
+    pub selecting: Vec<ProcessId>,
+    pub effecting: Vec<ProcessId>,
+    pub process_ids: Vec<ProcessId>,
+    pub heap_bytes: Vec<Vec<u8>>,
+    pub refcounts: Vec<u32>,
+    pub freed: Vec<bool>,
+    pub free: Vec<usize>,
+    pub pending_free: Vec<usize>,
+    pub constant_binaries: Vec<Option<usize>>,
+    pub next_ref: u64,
+    pub worker_id: u16,
+    /// (function_index, locals_base, captures_count, counter) per frame, per process (sorted by pid)
+    pub frames: Vec<(ProcessId, Vec<(usize, usize, usize, usize)>)>,
+}
+
+impl<E: Effect> Executor<E> {
+    pub fn verif_dump(&self) -> ExecutorDump {
+        let sorted = |s: &std::collections::HashSet<ProcessId>| {
+            let mut v: Vec<ProcessId> = s.iter().copied().collect();
+            v.sort_unstable();
+            v
+        };
+        let mut process_ids: Vec<ProcessId> = self.processes.keys().copied().collect();
+        process_ids.sort_unstable();
+        let frames = process_ids
+            .iter()
+            .map(|pid| {
+                let p = &self.processes[pid];
+                (
+                    *pid,
+                    p.frames
+                        .iter()
+                        .map(|f| (f.function_index, f.locals_base, f.captures_count, f.counter))
+                        .collect(),
+                )
+            })
+            .collect();
+        ExecutorDump {
+            queue: self.queue.iter().copied().collect(),
+            spawning: sorted(&self.spawning),
+            selecting: sorted(&self.selecting),
+            effecting: sorted(&self.effecting),
+            process_ids,
+            heap_bytes: self
+                .heap
+                .iter()
+                .enumerate()
+                .map(|(i, d)| if self.freed[i] { Vec::new() } else { d.to_vec() })
+                .collect(),
+            refcounts: self.refcounts.clone(),
+            freed: self.freed.clone(),
+            free: self.free.clone(),
+            pending_free: self.pending_free.clone(),
+            constant_binaries: self
+                .constant_binaries
+                .iter()
+                .map(|b| match b {
+                    Some(crate::value::Binary::Heap(i)) => Some(*i),
+                    _ => None,
+                })
+                .collect(),
+            next_ref: self.next_ref,
+            worker_id: self.worker_id,
+            frames,
+        }
+    }
+
+    /// The canonical-tuple table and tuple arities (for equality/IsType correspondence).
+    pub fn verif_tables(&self) -> (Vec<usize>, Vec<usize>) {
+        (self.tuples.clone(), self.canonical_tuples.clone())
+    }
+
+    /// Direct access to `values_equal` (private) for the equality correspondence.
+    pub fn verif_values_equal(&self, a: &crate::value::Value, b: &crate::value::Value) -> bool {
+        self.values_equal(a, b)
+    }
+
+    /// Mint a ref exactly as the `reference` builtin does.
+    pub fn verif_create_ref(&mut self) -> crate::value::Value {
+        self.create_ref()
+    }
+}
